@@ -476,6 +476,36 @@ func (r *pkgRun) evalValue(di, round int) {
 				}
 			}
 		}
+		// a Go union value may hold more than one non-nil member; the encoders and Size() must still agree with
+		// each other on it (they pick the first)
+		if V.HasUnion() && round%2 == 0 {
+			r.real("extramembers 1")
+			rs := r.real(fmt.Sprintf("size %d %s", di, vs))
+			rm2 := r.real(opMarshal)
+			rt2 := r.real(fmt.Sprintf("marshalto %d 2 0 %s", di, vs))
+			re2 := r.real(opEnc)
+			r.real("extramembers 0")
+			if rs.Class == "ok" && rm2.Class == "ok" && len(rm2.Fields) == 1 && !r.badReal("C02", di, "extramembers: "+opEnc, re2, false) && !r.badReal("C02", di, "extramembers: marshalto", rt2, false) {
+				n2, _ := rs.Int(0)
+				b2, _ := rm2.Bytes(0)
+				if len(b2) != n2 {
+					outcome = "fail"
+					r.fail("C02", "oracle", di, opMarshal, fmt.Sprintf("%d bytes (Size())", n2), fmt.Sprintf("%d bytes", len(b2)), "", "with later union members also non-nil: MarshalBebop's length is not Size()")
+				}
+				if re2.Class == "ok" && len(re2.Fields) == 2 {
+					if eb2, _ := re2.Bytes(0); len(eb2) != n2 || (!multi && re2.Fields[0] != rm2.Fields[0]) {
+						outcome = "fail"
+						r.fail("C02", "oracle", di, opEnc, rm2.Fields[0], re2.Fields[0], "", fmt.Sprintf("with later union members also non-nil: EncodeBebop differs from MarshalBebop / Size()=%d", n2))
+					}
+				}
+				if rt2.Class == "ok" && len(rt2.Fields) == 2 {
+					if wrote, _ := rt2.Int(1); wrote != n2 {
+						outcome = "fail"
+						r.fail("C02", "oracle", di, "marshalto", fmt.Sprint(n2), fmt.Sprint(wrote), "", "with later union members also non-nil: MarshalBebopTo does not return Size()")
+					}
+				}
+			}
+		}
 		r.eval("C02", di, bucket, outcome, vs)
 		r.sample("C02", "%s: V=%s Size=%d B=%s", env.Defs[di].Name, vs, len(B), hexB)
 	}
